@@ -82,6 +82,102 @@ def _filled_elsewhere(mod, name):
     return memo[name]
 
 
+def _registry_value(mod, name):
+    """What a module-level registry holds once the module is imported, when that is evident from the module alone: the
+    container starts empty (`[]` / `{}` / `list()` / `dict()`), and its only mutation is ONE statement at the top of the body of
+    a module-level function -- `NAME.append(f)` in `def reg(f)` used as `@reg`, or `NAME[key] = f` in the inner function of
+    `def reg(key): def deco(f): ...; return deco` used as `@reg(<key>)` -- which is applied (as a decorator, or called in a
+    module-level expression statement) to functions of the module.  The value is the display of the registered functions in
+    source order.  None when anything else touches the container."""
+    memo = mod.__dict__.setdefault("_registry_value_memo", {})
+    if name in memo:
+        return memo[name]
+    memo[name] = None
+    v0 = mod.assigns.get(name)
+    is_list = (isinstance(v0, ast.List) and not v0.elts) or (isinstance(v0, ast.Call) and A.call_dotted(v0) == "list" and not v0.args and not v0.keywords)
+    is_dict = (isinstance(v0, ast.Dict) and not v0.keys) or (isinstance(v0, ast.Call) and A.call_dotted(v0) in ("dict", "OrderedDict", "collections.OrderedDict")
+                                                             and not v0.args and not v0.keywords)
+    if not (is_list or is_dict):
+        return None
+    # the one mutation site
+    sites = []
+    for n in ast.walk(mod.tree):
+        if isinstance(n, ast.Call) and isinstance(n.func, ast.Attribute) and n.func.attr in _MUTATORS and isinstance(n.func.value, ast.Name) and n.func.value.id == name:
+            sites.append(n)
+        elif isinstance(n, ast.Subscript) and isinstance(n.ctx, (ast.Store, ast.Del)) and isinstance(n.value, ast.Name) and n.value.id == name:
+            sites.append(n)
+        elif isinstance(n, ast.AugAssign) and isinstance(n.target, ast.Name) and n.target.id == name:
+            sites.append(n)
+    stores = [n for n in ast.walk(mod.tree) if isinstance(n, ast.Name) and n.id == name and isinstance(n.ctx, (ast.Store, ast.Del))]
+    if len(sites) != 1 or len(stores) != 1:
+        return None
+    site = sites[0]
+    reg = key_param = None
+    for fn in mod.tree.body:
+        if not isinstance(fn, ast.FunctionDef) or fn.decorator_list:
+            continue
+        a = fn.args
+        if a.vararg or a.kwarg or a.kwonlyargs or a.defaults or len(a.posonlyargs + a.args) != 1:
+            continue
+        p0 = (a.posonlyargs + a.args)[0].arg
+        body = [s for s in fn.body if not (isinstance(s, ast.Expr) and isinstance(s.value, ast.Constant))]
+        if is_list and len(body) == 2 and isinstance(body[0], ast.Expr) and body[0].value is site and site.func.attr == "append" \
+                and len(site.args) == 1 and isinstance(site.args[0], ast.Name) and site.args[0].id == p0 \
+                and isinstance(body[1], ast.Return) and isinstance(body[1].value, ast.Name) and body[1].value.id == p0:
+            reg = fn
+        if is_dict and len(body) == 2 and isinstance(body[0], ast.FunctionDef) and isinstance(body[1], ast.Return) \
+                and isinstance(body[1].value, ast.Name) and body[1].value.id == body[0].name and not body[0].decorator_list:
+            inner = body[0]
+            ia = inner.args
+            ib = [s for s in inner.body if not (isinstance(s, ast.Expr) and isinstance(s.value, ast.Constant))]
+            if not (ia.vararg or ia.kwarg or ia.kwonlyargs or ia.defaults) and len(ia.posonlyargs + ia.args) == 1 and len(ib) == 2:
+                q0 = (ia.posonlyargs + ia.args)[0].arg
+                if isinstance(ib[0], ast.Assign) and len(ib[0].targets) == 1 and ib[0].targets[0] is site and isinstance(site.ctx, ast.Store) \
+                        and isinstance(site.slice, ast.Name) and site.slice.id == p0 and isinstance(ib[0].value, ast.Name) and ib[0].value.id == q0 \
+                        and isinstance(ib[1], ast.Return) and isinstance(ib[1].value, ast.Name) and ib[1].value.id == q0:
+                    reg, key_param = fn, p0
+    if reg is None:
+        return None
+    # every use of the registering function: a decorator of a module-level function
+    uses = [n for n in ast.walk(mod.tree) if isinstance(n, ast.Name) and n.id == reg.name and isinstance(n.ctx, ast.Load)]
+    entries, accounted = [], 0
+    for fn in mod.tree.body:
+        if not isinstance(fn, (ast.FunctionDef, ast.AsyncFunctionDef)):
+            continue
+        for i, d in enumerate(fn.decorator_list):
+            if key_param is None and isinstance(d, ast.Name) and d.id == reg.name:
+                if i != len(fn.decorator_list) - 1:
+                    return None    # what is registered is then not the function itself
+                entries.append((None, ast.copy_location(ast.Name(id=fn.name, ctx=ast.Load()), fn)))
+                accounted += 1
+            elif key_param is not None and isinstance(d, ast.Call) and isinstance(d.func, ast.Name) and d.func.id == reg.name \
+                    and len(d.args) == 1 and not d.keywords and not isinstance(d.args[0], ast.Starred):
+                if i != len(fn.decorator_list) - 1:
+                    return None
+                entries.append((d.args[0], ast.copy_location(ast.Name(id=fn.name, ctx=ast.Load()), fn)))
+                accounted += 1
+    if accounted != len(uses) or not entries:
+        return None
+    # the registered functions keep their names (nothing rebinds them)
+    names = [v.id for (_k, v) in entries]
+    if len(set(names)) != len(names) or any(nm in mod.assigns for nm in names):
+        return None
+    if is_list:
+        out = ast.List(elts=[v for (_k, v) in entries], ctx=ast.Load())
+    else:
+        out = ast.Dict(keys=[k for (k, _v) in entries], values=[v for (_k, v) in entries])
+    ast.copy_location(out, v0)
+    memo[name] = out
+    return out
+
+
+def _module_value(mod, name):
+    """The value a module-level name of `mod` evidently has after import, else None."""
+    if not _filled_elsewhere(mod, name):
+        return mod.assigns[name]
+    return _registry_value(mod, name)
+
+
 def _bound_value(fa, e, at):
     """The expression a name stands for, when that is evident: a local with one reaching plain assignment, a module-level
     name of this module or of the repository module it is imported from, a class-level constant read as `self.X` / `cls.X` /
@@ -94,13 +190,13 @@ def _bound_value(fa, e, at):
             return None
         mod = fa.fi.module
         if e.id in mod.assigns:
-            return None if _filled_elsewhere(mod, e.id) else mod.assigns[e.id]
+            return _module_value(mod, e.id)
         origin = mod.imports.get(e.id)
         if origin and ":" in origin:
             m_, n_ = origin.split(":", 1)
             other = fa.ck.repo.modules.get(m_.lstrip(".").split(".")[-1])
             if other is not None and n_ in other.assigns:
-                return None if _filled_elsewhere(other, n_) else other.assigns[n_]
+                return _module_value(other, n_)
         return None
     if isinstance(e, ast.Attribute) and isinstance(e.value, ast.Name):
         k = fa.fi.cls
